@@ -818,7 +818,9 @@ pub fn generate(profile: &Profile, seed: u64, index: u64) -> CaseSpec {
     if profile.p_wide > 0 {
         let mut r5 = Rng::new(seed.wrapping_mul(0x51ED_270B).wrapping_add(index) ^ 0xA1DE);
         if pct(&mut r5, profile.p_wide) {
-            let n = r5.range(66, 100) as u32;
+            // (a quarter of them on a larger scale: more scenarios than any batch size one might think of)
+            let huge = r5.chance(1, 4);
+            let n = if huge { r5.range(260, 320) } else { r5.range(66, 100) } as u32;
             let scenarios = (0..n)
                 .map(|i| {
                     let unit = format!("S:s{i}:0");
@@ -834,6 +836,15 @@ pub fn generate(profile: &Profile, seed: u64, index: u64) -> CaseSpec {
             items = vec![Item::Feat(FeatSpec { uid: 0, name: "feat f0".into(), tags: Vec::new(), bg: Vec::new(), scenarios, rules: Vec::new(), path: Some("/virt/f0.feature".into()) })];
             pend = vec![Vec::new(), Vec::new()];
             cfg = Cfg::default();
+            if huge {
+                match r5.below(5) {
+                    0 => cfg.b_concurrency = Some(None),
+                    1 => cfg.b_concurrency = Some(Some(usize::MAX)),
+                    2 => cfg.cli_concurrency = Some(usize::MAX),
+                    3 => cfg.b_concurrency = Some(Some(r5.range(257, 300))),
+                    _ => cfg.cli_concurrency = Some(r5.range(257, 300)),
+                }
+            } else {
             match r5.below(7) {
                 0 => cfg.b_concurrency = Some(None),
                 1 => {}
@@ -844,6 +855,7 @@ pub fn generate(profile: &Profile, seed: u64, index: u64) -> CaseSpec {
                 // ... and "as many as there are", spelled as a number
                 5 => cfg.b_concurrency = Some(Some(usize::MAX)),
                 _ => cfg.cli_concurrency = Some(usize::MAX),
+            }
             }
         }
     }
@@ -929,7 +941,21 @@ fn g_scenario(s: &ScSpec, line: &mut usize) -> gherkin::Scenario {
 pub fn to_gherkin(f: &FeatSpec) -> gherkin::Feature {
     let mut line = 1;
     let background = g_bg(&f.bg, &mut line);
-    let scenarios = f.scenarios.iter().map(|s| g_scenario(s, &mut line)).collect();
+    let mut scenarios: Vec<gherkin::Scenario> = f.scenarios.iter().map(|s| g_scenario(s, &mut line)).collect();
+    // every 4th feature delivers its top-level scenarios as what the stock parser makes of ONE outline
+    // with an Examples block per row: the rows share the outline's span, each carries its
+    // own block's tags among its tags, and - clones of the outline - all of them carry all the blocks
+    if f.uid % 4 == 1 && scenarios.len() >= 2 {
+        let outline_span = scenarios[0].span;
+        let blocks: Vec<gherkin::Examples> = scenarios
+            .iter()
+            .map(|s| gherkin::Examples { keyword: "Examples".into(), name: None, description: None, table: None, tags: s.tags.clone(), span: s.span, position: s.position })
+            .collect();
+        for s in &mut scenarios {
+            s.span = outline_span;
+            s.examples = blocks.clone();
+        }
+    }
     let rules = f
         .rules
         .iter()
